@@ -1,5 +1,7 @@
 package slicez
 
+import "unsafe"
+
 type FlexSlice[T any] struct {
 	Values []T
 }
@@ -17,6 +19,11 @@ func (f *FlexSlice[T]) Prepend(v ...T) {
 	nc := n1 + n2
 	if c >= nc {
 		f.Values = f.Values[:nc]
+		if overlaps(v, f.Values) {
+			// v is a window of f's own array, e.g. f.Prepend(f.Values[1:3]...):
+			// the shift below would change it before it is copied.
+			v = append([]T(nil), v...)
+		}
 		copy(f.Values[n1:], f.Values[:n2])
 		copy(f.Values, v)
 		return
@@ -102,4 +109,17 @@ func (f *FlexSlice[T]) shrink() {
 
 func (f *FlexSlice[T]) withinRange(index int) bool {
 	return index >= 0 && index < len(f.Values)
+}
+
+// overlaps reports whether the memory ranges a[0:len(a)] and b[0:len(b)] overlap.
+func overlaps[T any](a, b []T) bool {
+	if len(a) == 0 || len(b) == 0 {
+		return false
+	}
+	size := unsafe.Sizeof(a[0])
+	if size == 0 {
+		return false
+	}
+	return uintptr(unsafe.Pointer(&a[0])) <= uintptr(unsafe.Pointer(&b[len(b)-1]))+(size-1) &&
+		uintptr(unsafe.Pointer(&b[0])) <= uintptr(unsafe.Pointer(&a[len(a)-1]))+(size-1)
 }
